@@ -81,6 +81,39 @@ def op_pool(L, tier):
         ops.append(('opaque', G.Operated(G.Operator.Possibility, (A,)), 0, vals[0]))
     return ops, W
 
+def scenarios(L):
+    """fixed operation lists beyond the multiset bound, each explored in every order: identity congruence of a binary
+    predicate over two identity classes (four constants), and access chains / forks over four worlds"""
+    import pytableaux.lang as G
+    out = []
+    vals = [v.name for v in L.Meta.values]
+    T = vals[-1]
+    a, b, c, d = (G.Constant(i, 0) for i in range(4))
+    R = G.Predicate((1, 0, 2))
+    I = G.Predicate.Identity
+    out.append([('pred', G.Predicated(I, (a, b)), 0, T), ('pred', G.Predicated(I, (c, d)), 0, T), ('pred', G.Predicated(R, (a, c)), 0, T)])
+    out.append([('pred', G.Predicated(I, (b, a)), 0, T), ('pred', G.Predicated(I, (b, c)), 0, T), ('pred', G.Predicated(R, (c, c)), 0, T)])
+    out.append([('pred', G.Predicated(I, (a, b)), 0, T), ('pred', G.Predicated(R, (a, a)), 0, T), ('pred', G.Predicated(R, (c, a)), 0, vals[0])])
+    if L.Meta.modal:
+        out.append([('access', 0, 1), ('access', 1, 2), ('access', 2, 3), ('atom', G.Atomic(0, 0), 3, T)])
+        out.append([('access', 1, 0), ('access', 2, 1), ('access', 3, 2), ('atom', G.Atomic(0, 0), 0, T)])
+        out.append([('access', 0, 1), ('access', 2, 3), ('access', 1, 2)])
+        out.append([('access', 0, 1), ('access', 0, 2), ('access', 3, 2), ('pred', G.Predicated(I, (a, b)), 3, T)])
+    return out
+
+def scenario_sentences(L):
+    import pytableaux.lang as G
+    a, b, c, d = (G.Constant(i, 0) for i in range(4))
+    R = G.Predicate((1, 0, 2))
+    out = [G.Predicated(R, t) for t in itertools.product((a, b, c, d), repeat=2)]
+    out += [G.Predicated(G.Predicate.Identity, t) for t in itertools.product((a, b, c, d), repeat=2)]
+    A = G.Atomic(0, 0)
+    out.append(A)
+    if L.Meta.modal:
+        P, N = G.Operator.Possibility, G.Operator.Necessity
+        out += [P(A), N(A), P(P(A)), P(P(P(A))), N(N(A))]
+    return out
+
 def eval_sentences(L):
     import pytableaux.lang as G
     A, B = G.Atomic(0, 0), G.Atomic(1, 0)
@@ -302,7 +335,55 @@ def _task(task):
                         what = f'the model differs from the one built in the order [{", ".join(opstr(ops[i]) for i in first[0])}]: {diff or (b_[1:4], a_[1:4])}'
                     viol('order-dependent', what)
                     break
+    if part == 0:
+        ssents = scenario_sentences(L)
+        for sc in scenarios(L):
+            out['states'] += 1
+            first = None
+            for perm in sorted(set(itertools.permutations(range(len(sc))))):
+                pseq = [sc[i] for i in perm]
+                out['transitions'] += len(pseq) + 1
+                kind, m = build(L, pseq)
+                def viol(kd, what):
+                    out['viol'].append(dict(sig=f'{name}|{kd}|{";".join(opstr(x) for x in pseq)}'.replace(' ', ''),
+                                            what=f'{name}: model built by [{", ".join(opstr(x) for x in pseq)}] then finish(): {what}',
+                                            replay=dict(logic=name, tier=tier, ops=[], combo=[])))
+                if kind == 'ok':
+                    o = observe(L, m, ssents)
+                    key = (kind, o['worlds'], o['R'], o['consts'], tuple(sorted((w, str(s_), v) for (w, s_), v in o['table'].items())))
+                else:
+                    o, key = None, (kind,)
+                if first is None:
+                    first = key
+                    if kind == 'ok':
+                        out['models'] += 1
+                        p = reference_check(L, refL, lib, m, o, ssents, pseq)
+                        if p is None and refL.identity:
+                            p = congruence_problem(m, o)
+                        if p:
+                            viol('semantics', p)
+                            break
+                elif key != first:
+                    viol('order-dependent', 'the finished model depends on the order of the operations')
+                    break
     return out
+
+def congruence_problem(m, obs):
+    "classical family: every predicate's extension (any arity) respects identity, at every world"
+    import pytableaux.lang as G
+    consts = sorted(m.constants)
+    for w in obs['worlds']:
+        val = lambda s_: m.value_of(s_, world=w).name
+        same = {(p, q) for p in consts for q in consts if val(G.Predicated(G.Predicate.Identity, (p, q))) == 'T'}
+        for pred in list(m.frames[w].predicates):
+            if pred.arity != 2 or pred == G.Predicate.Identity:
+                continue
+            for t in itertools.product(consts, repeat=2):
+                for u in itertools.product(consts, repeat=2):
+                    if (t[0], u[0]) in same and (t[1], u[1]) in same and val(G.Predicated(pred, t)) != val(G.Predicated(pred, u)):
+                        return (f'world {w}: {t[0]}={u[0]} and {t[1]}={u[1]} but {pred}{tuple(map(str, t))} is {val(G.Predicated(pred, t))} '
+                                f'and {pred}{tuple(map(str, u))} is {val(G.Predicated(pred, u))}')
+    return None
 
 def run(ctx):
     names = sweep.logic_names()
@@ -321,7 +402,7 @@ def run(ctx):
         rule=(f'per logic: every multiset of <= {k} model-API operations (atomic / predicate / identity / uninterpreted values at worlds 0..{1 if ctx.quick else 2}, every value '
               'of the logic; access pairs) followed by finish(), in every order; a state is the multiset; consistent ones are evaluated on ~30 sentences per world '
               'against the recursion over the library\'s own tables plus the documented quantifier/modal clause, the frame closure and the classical identity laws; '
-              'all orders must give the same model or all be rejected'),
+              'all orders must give the same model or all be rejected; plus 3-7 fixed scenarios per logic (binary-predicate congruence over two identity classes, four-world access chains and forks) in every order'),
         finished_models_checked=sum(r['models'] for r in res), inconsistent_histories=sum(r['inconsistent'] for r in res),
         max_operations=k, logics=len(names), exhaustive=True,
         samples=[r['sample'] for r in res if r['sample']][:4])
